@@ -7,7 +7,7 @@ from fractions import Fraction
 
 from sympy import Mul, S, Rational
 
-from adcgen.indices import get_symbols, Index
+from adcgen.indices import get_symbols, Index, split_idx_string
 from adcgen.sympy_objects import (NonSymmetricTensor, AntiSymmetricTensor, KroneckerDelta)
 from adcgen.expr_container import Expr
 from adcgen.generate_code.optimize_contractions import (optimize_contractions,
@@ -20,7 +20,8 @@ NAMES = ["i", "j", "k", "a", "b", "p"]
 
 
 def build(case):
-    idx = {n: get_symbols(n)[0] for n in NAMES + ["l", "c"]}
+    # (optionally all indices of one spin, with an explicit target spin string)
+    idx = {n: get_symbols(n, case.get("spin"))[0] for n in NAMES + ["l", "c"]}
     factors = []
     for n, (kind, names, exp, *nm) in enumerate(case["objs"]):
         if kind == "d":
@@ -98,6 +99,8 @@ def gen_cases(tier, seed):
             case["max_n"] = rng.randint(2, 3)
         if rng.random() < 0.3:
             case["pref"] = [rng.randint(1, 3), rng.randint(1, 4)]
+        if rng.random() < 0.3:
+            case["spin"] = rng.choice("ab")
         yield case
 
 
@@ -227,7 +230,8 @@ def check(case):
         tstr = "".join(names)
     else:
         tstr = tspec
-    target = tuple(term.target) if tstr is None else tuple(get_symbols(tstr))
+    tspin = case["spin"] * len(split_idx_string(tstr)) if case.get("spin") and tstr else None
+    target = tuple(term.target) if tstr is None else tuple(get_symbols(tstr, tspin))
     if tstr is not None and any(s not in term.idx for s in target):
         return True, "target index not in the term"
     if tstr is not None:
@@ -236,7 +240,7 @@ def check(case):
     model = Model(orbital_space(1, 1), seed=4)
     limits = {"max_itmd_dim": case.get("max_itmd_dim"), "max_n": case.get("max_n")}
     try:
-        scheme = optimize_contractions(term, tstr, None, limits["max_itmd_dim"], limits["max_n"])
+        scheme = optimize_contractions(term, tstr, tspin, limits["max_itmd_dim"], limits["max_n"])
     except RuntimeError as ex:
         if limits["max_itmd_dim"] is None and limits["max_n"] is None:
             return False, f"no scheme found without limits: {ex}"
@@ -245,7 +249,7 @@ def check(case):
         ok, detail = check_scheme(term, scheme, target, model, limits, "optimize_contractions")
         if not ok:
             return False, f"{expr} target {target}: {detail}"
-    hyper = unoptimized_contraction(term, tstr)
+    hyper = unoptimized_contraction(term, tstr, tspin)
     ok, detail = check_scheme(term, hyper, target, model, {}, "unoptimized_contraction")
     if not ok:
         return False, f"{expr} target {target}: {detail}"
@@ -261,6 +265,6 @@ CHECKS = {
     "schemes.execute": {
         "function": "adcgen.generate_code.optimize_contractions:optimize_contractions",
         "cases": gen_cases, "check": check,
-        "bound": "terms of <= 4 objects (rank <= 3, exponents <= 2, deltas, traces) over 6 index names, optional explicit target order, max_itmd_dim 0..3, max_n_simultaneous_contracted 2..3; hyper-contractions of 4-6 objects of rank <= 2 (partly with equal tensor names) over 2-3 index names with max_n_simultaneous_contracted 2..5; 2 occ + 2 virt spin orbitals, all target assignments",
+        "bound": "terms of <= 4 objects (rank <= 3, exponents <= 2, deltas, traces) over 6 index names, optional explicit target order (also with spin labelled indices and a target spin string), max_itmd_dim 0..3, max_n_simultaneous_contracted 2..3; hyper-contractions of 4-6 objects of rank <= 2 (partly with equal tensor names) over 2-3 index names with max_n_simultaneous_contracted 2..5; 2 occ + 2 virt spin orbitals, all target assignments",
     },
 }
